@@ -108,7 +108,7 @@ def is_item(S):
 # ----------------------------------------------------------------------------------------------
 # Grammar: atoms  (name -> (expression template over {v}, needs, validity predicate))
 #
-# needs: members that must exist in the focus space (see MEMBERS).  Every atom is int-valued.
+# needs: members that must exist in the focus space (created by expand.need).  Every atom is int-valued.
 
 def _any(S):
     return True
@@ -131,6 +131,7 @@ ATOMS = {
     "kwref":     ("h({v}, y=y)", ["h", "y"], _any),
     "star":      ("h(*[{v}], **{{'y': 2}})", ["h"], _any),
     "scalar":    ("k() + {v}", ["k"], _any),
+    "valparam":  ("v2({v}) * 10 + v2({v} + 1)", ["v2"], _any),
     "rec":       ("(g({v} - 1) + f({v}) if {v} > 0 else 0)", ["f"], _any),
     "ref":       ("r + {v}", ["r"], _any),
     "strref":    ("len(s) + {v}", ["s"], _any),
@@ -313,7 +314,9 @@ def g_source(case):
 def expand(case):
     """Explicit description: {"mrefs": [[name, literal]], "spaces": [space...], "focus": path}
     space = {"path", "bases", "params", "cells": [[name, src, cached]], "refs": [ref...]}
-    ref   = [name, "val", python-literal] | [name, "obj", target path, refmode]
+    ref   = [name, "val", python-literal | inf | nan] | [name, "obj", target path, refmode]
+            | [name, "same", other ref name] (the very same object) | [name, "pandas", kind, file, file_type]
+    model refs: literal, or "obj:<path>" (a cells / space of the model)
     """
     assert valid(case), case
     S, C, A, V = case["S"], case["C"], case["A"], case.get("V", "c")
@@ -353,6 +356,8 @@ def expand(case):
             fs["cells"].append(["min", "lambda x: x + 50" + psuffix, True])
         elif n == "z":
             fs["cells"].append(["z", "lambda x: x + 900", True])
+        elif n == "v2":
+            fs["cells"].append(["v2", "lambda val: val + 1", True])
         elif n == "pf":
             spaces[st["parent_pf"]]["cells"].append(["pf", "lambda x: x + 1000", True])
         elif n == "y":
@@ -575,10 +580,10 @@ def build(desc):
 
 
 def _nparams(src):
-    """(number of parameters, number with defaults) of a formula source."""
+    """(number of parameters, number with defaults, parameter names) of a formula source."""
     node = ast.parse(src.strip()).body[0]
     a = node.value.args if isinstance(node, ast.Expr) else node.args
-    return len(a.args), len(a.defaults)
+    return len(a.args), len(a.defaults), [x.arg for x in a.args]
 
 
 INST1 = ["[1]", "(2)"]
@@ -623,13 +628,13 @@ def queries(desc):
         mem = members(sp["path"])
         for inst in instances(sp["path"]):
             for name, src in mem.items():
-                n, nd = _nparams(src)
+                n, nd, pn = _nparams(src)
                 if n == 0:
                     args = ["()"]
                 elif n == 1:
-                    args = ["(0)", "(1)", "(2)"]
+                    args = ["(0)", "(1)", "(2)", "(%s=1)" % pn[0]]
                 elif n == 2 and nd == 1:
-                    args = ["(0)", "(1)", "(2)", "(1, 2)", "(2, 0)"]
+                    args = ["(0)", "(1)", "(2)", "(1, 2)", "(2, 0)", "(1, %s=2)" % pn[1], "(%s=2)" % pn[0]]
                 else:
                     args = ["(0, 1)", "(1, 0)", "(2, 2)"]
                 for a in args:
@@ -817,10 +822,15 @@ MAX_VIOLS_PER_ITEM = 4
 # ----------------------------------------------------------------------------------------------
 # enumeration
 
+_ENUM = {}
+
+
 def enumerate_cases(tier):
     """Deterministic list of all programs of the tier (coordinates without V) -> list of (base, [flags])."""
+    if tier in _ENUM:
+        return _ENUM[tier]
     progs = []
-    seen = set()
+    seen = {}
 
     def add(S, C, A, F, flags):
         base = {"S": S, "C": C, "A": A, "F": F}
@@ -828,14 +838,13 @@ def enumerate_cases(tier):
             return
         k = (S, C, A, F)
         if k in seen:
-            for b, fl in progs:
-                if (b["S"], b["C"], b["A"], b["F"]) == k:
-                    for f in flags:
-                        if f not in fl:
-                            fl.append(f)
+            fl = seen[k]
+            for f in flags:
+                if f not in fl:
+                    fl.append(f)
             return
-        seen.add(k)
-        progs.append((base, list(flags)))
+        seen[k] = list(flags)
+        progs.append((base, seen[k]))
 
     if tier == "quick":
         # block 1 (syntax): static structure, every context x form, core atoms
@@ -859,11 +868,16 @@ def enumerate_cases(tier):
             for A in ATOM_ORDER:
                 for C, F in CORE_CTX + [("genexp", "def"), ("lambda", "lambda"), ("for", "def")]:
                     add(S, C, A, F, FLAGS)
+        for S in ("inh1o", "item1d"):
+            for C, F in ALL_CF:
+                for A in ATOM_ORDER:
+                    add(S, C, A, F, ["c"])
         # every context x form in every structure for the core atoms
         for S in STRUCT_ORDER:
             for C, F in ALL_CF:
                 for A in ("call", "ref", "param", "rec"):
                     add(S, C, A, F, ["c", "g"])
+    _ENUM[tier] = progs
     return progs
 
 
@@ -874,6 +888,11 @@ def work_items(tier, seed):
     for k in range(0, len(progs), per):
         items.append({"programs": [[b, fl] for b, fl in progs[k:k + per]]})
     return items
+
+
+def _on_item(q):
+    inst = q.rsplit(".", 1)[0]              # "m.P[1].Q(2)" of "m.P[1].Q(2).g(0)"
+    return "[" in inst or "(" in inst
 
 
 def run_item(item, tier):
@@ -900,7 +919,7 @@ def run_item(item, tier):
         okq = [q for q in r["queries"] if r["model"][q][0] == "ok"]
         counts["evaluations"] += len(okq)
         counts["model_raised_skipped"] += len(r["queries"]) - len(okq)
-        counts["queries_on_item_spaces"] += sum(1 for q in okq if "[" in q.split(".g(")[0] or "(2" in q.rsplit(".", 1)[0])
+        counts["queries_on_item_spaces"] += sum(1 for q in okq if _on_item(q))
         gq = [q for q in okq if q.rsplit(".", 1)[1].startswith("g(")]
         nontrivial = bool(gq) and case["A"] not in TRIVIAL_ATOMS
         if nontrivial:
